@@ -187,7 +187,7 @@ func c08Run(c *mc.Ctx) {
 	c.Count("grammar-strings-x-types-rejected-by-reference", rej)
 	c.Count("grammar-strings-x-types-accepted-by-reference", acc)
 	c.Sample("grammar-string", c08Case{InputHex: "0f0b000000020000", Type: ref.LIST, Skipper: skBinary, Desc: "list<string> size 2, truncated"})
-	c.Done(fmt.Sprintf("all strings over the 12-byte grammar alphabet up to length %d x 18 requested types x 9 skipper/reader combinations", L))
+	c.Done(fmt.Sprintf("all strings over the 12-byte grammar alphabet up to length %d x 18 requested types x 11 skipper/reader combinations", L))
 
 	// (b) strict prefixes, (c) structural perturbations of the generated trees
 	trees := gen.Trees(false, 12)
@@ -235,7 +235,7 @@ func c08Run(c *mc.Ctx) {
 			return true
 		})
 	}
-	c.Done(fmt.Sprintf("every strict prefix and every single structural perturbation (type tags, 4-byte sizes incl. 0x7fffffff/0x80000000/0xffffffff, field ids) of %d value trees x 9 skipper/reader combinations", len(trees)))
+	c.Done(fmt.Sprintf("every strict prefix and every single structural perturbation (type tags, 4-byte sizes incl. 0x7fffffff/0x80000000/0xffffffff, field ids) of %d value trees x 11 skipper/reader combinations", len(trees)))
 
 	// (c2) well-formed values whose declared sizes use the high bits of the low size half-word (must be accepted, exact extent)
 	for _, tr := range gen.Trees(true, 2) {
@@ -392,7 +392,7 @@ func c08Run(c *mc.Ctx) {
 func init() {
 	Register(&Check{
 		ID: "C08", Level: "exploration",
-		Rule: "all strings over the grammar alphabet {00,01,02,03,08,0b,0c,0d,0f,7f,80,ff} up to length L x 18 requested type bytes; every strict prefix and every single structural perturbation of every generated value tree; nesting chains 1..70 (+mixed, +very deep) — each on all five skipping facilities (9 skipper/reader combinations) against an independent recursive-descent grammar; distinct_nontrivial counts distinct inputs the reference REJECTS plus chain cases",
+		Rule: "all strings over the grammar alphabet {00,01,02,03,08,0b,0c,0d,0f,7f,80,ff} up to length L x 18 requested type bytes; every strict prefix and every single structural perturbation of every generated value tree; nesting chains 1..70 (+mixed, +very deep) — each on all five skipping facilities (11 skipper/reader combinations) against an independent recursive-descent grammar; distinct_nontrivial counts distinct inputs the reference REJECTS plus chain cases",
 		Assumptions: []string{
 			"nesting level 64 is not compared (the statement's boundary zone)",
 			"a stream skipper that asks the allocator for more than 2 MiB for an input < 64 KiB counts as a rejection (it can only end in an error once the source is exhausted); counted under alloc-cap-outcomes",
